@@ -16,6 +16,7 @@ mod eon;
 mod birth;
 mod cmd;
 mod wire;
+mod loop_;
 
 use common::*;
 use std::path::{Path, PathBuf};
@@ -43,6 +44,7 @@ fn replay_file(comp: &str, path: &Path, out: &mut Out) {
         "birth" => birth::replay(&desc, &ops, out),
         "cmd" => cmd::replay(&desc, &ops, out),
         "wire" => wire::replay(&desc, &ops, out),
+        "loop" => loop_::replay(&desc, &ops, out),
         _ => panic!("unknown component"),
     }
 }
@@ -149,6 +151,7 @@ fn main() {
         "birth" => birth::run(&args, &mut out),
         "cmd" => cmd::run(&args, &mut out),
         "wire" => wire::run(&args, &mut out),
+        "loop" => loop_::run(&args, &mut out),
         _ => {
             eprintln!("unknown component {}", comp);
             std::process::exit(2)
